@@ -49,7 +49,8 @@ RULES = {
 }
 ASSUMPTIONS = [
     "a stream() started while another task's body read is pending may raise the stream-consumed error or replay; it must never see a partial body",
-    "after a disconnect, later accesses may raise ClientDisconnect or the stream-consumed error, never return data; exceptions may be cached or recomputed",
+    "after a disconnect, later accesses may raise ClientDisconnect or the stream-consumed error, never return data; exceptions may be cached or recomputed - "
+    "except that on ASGI the same cached accessor (body / json / form) that has itself reported the disconnect reports it again when asked again (identical cached result)",
     "partial streaming is modelled as taking k chunks and closing the iterator",
     "a request body is legitimate with every method (GET, HEAD, OPTIONS, DELETE included); the server announces it with an exact Content-Length, with "
     "Transfer-Encoding: chunked or (ASGI / a de-chunking WSGI server) not at all; wsgi.input.read(n) may return fewer than n bytes while more follow",
@@ -244,7 +245,7 @@ def same_items(a, b):
     return True
 
 
-def compare(r, side, where, op, want, got, raw, objs, disconnected=False, first_read=False):
+def compare(r, side, where, op, want, got, raw, objs, disconnected=False, first_read=False, repeated_after_disconnect=False):
     """want: model outcome; got: (kind, value).  first_read: nothing has touched the stream before this access."""
     tag = f"C10:{side}:{op}"
     if got[0] == "unexpected":
@@ -257,6 +258,11 @@ def compare(r, side, where, op, want, got, raw, objs, disconnected=False, first_
             r.fail(f"{tag}:disconnect-as-truncated-data", f"{where}: the client disconnected mid-body, yet the access returned {str(got[1])[:60]}")
         elif got != want:
             r.fail(f"{tag}:expected-ClientDisconnect", f"{where}: the first access to read the body met the disconnect and got {got!r}")
+        return
+    if repeated_after_disconnect and want == ("exc", "ClientDisconnect") and got != want and got[0] != "ok":
+        # the SAME cached accessor again (body after body, json after json ...): "repeated accesses return the identical
+        # cached result" - the failure that was reported the first time, not a different error
+        r.fail(f"{tag}:repeated-access-differs-after-disconnect", f"{where}: this accessor already reported ClientDisconnect; asked again it gave {got!r}")
         return
     if disconnected and want[0] == "exc" and got in (("exc", "ClientDisconnect"), ("exc", "RuntimeError")):
         return  # after a disconnect the cached error or the stream-consumed error may surface
@@ -493,6 +499,8 @@ def oracle_seq(case) -> Result:
             return r
     objs = {}
     kinds = set()
+    first_disc: dict = {}
+    reported: set = set()
     for i, (op, got) in enumerate(zip(case["ops"], outs)):
         where = f"{where0} step {i} ({op})"
         op = split_op(op)[0]
@@ -512,7 +520,13 @@ def oracle_seq(case) -> Result:
             want = model.json()
         else:
             want = model.form()
-        compare(r, side, where, op, want, got, raw, objs, disconnected=disc is not None, first_read=fresh)
+        # the same cached accessor asked again after it has itself reported the disconnect (ASGI caches the outcome of body / json / form)
+        again = side == "asgi" and op in ("body", "json", "form") and first_disc.get("op") == op and op in reported
+        compare(r, side, where, op, want, got, raw, objs, disconnected=disc is not None, first_read=fresh, repeated_after_disconnect=again)
+        if fresh and want == ("exc", "ClientDisconnect"):
+            first_disc["op"] = op
+        if got == ("exc", "ClientDisconnect"):
+            reported.add(op)
     if side == "asgi":
         if state["extra"] and disc is None:
             r.fail("C10:asgi:receive-after-final-message", f"{where0}: {state['extra']} receive() call(s) after the final request message")
